@@ -313,6 +313,10 @@ def features(case):
                 f.add("consecutive-faults")
             if case["rate"] >= 1 and (k + 1) % case["rate"] == 0:
                 f.add("fault-near-recycle-boundary")
+    if case.get("data"):
+        f.add("comparison-data:key-set-varies")
+        for sp in case["data"].values():
+            f.add("comparison-data:keys=" + (sp or "none"))
     if case.get("kill_idle_after"):
         f.add("idle-worker-killed-by-a-third-party")
     if case.get("probe"):
